@@ -200,6 +200,8 @@ def main():
     ptmod.h5py = H5Proxy(real, rec)
     import warnings
     warnings.simplefilter("ignore")
+    if os.environ.get("VERIF_FAKE_VERSION"):
+        ptmod.__version__ = os.environ["VERIF_FAKE_VERSION"]       # the writer is another release of the same library
     fail_step = int(os.environ.get("VERIF_FAIL_STEP", "0") or 0)
     if fail_step:
         # the writer is interrupted between file operations: in the fail_step-th propagation step of PT-TEMPO
